@@ -352,6 +352,8 @@ func solveStaged(o *Obligation, timeoutS int, all bool) (solveResult, []solveRes
 	return solveRace(o.Script, timeoutS, all)
 }
 
+var dumped bool
+
 func cmdProve(args []string) {
 	fs := flag.NewFlagSet("prove", flag.ExitOnError)
 	dir := fs.String("dir", "/repo", "module directory")
@@ -448,7 +450,8 @@ func cmdProve(args []string) {
 					}
 				}
 			}
-			if *dump != "" && o.Name == *dump {
+			if *dump != "" && o.Name == *dump && (!ok || !dumped) {
+				dumped = true
 				os.WriteFile("/tmp/govc_dump.smt2", []byte(o.Script), 0644)
 				fmt.Println("   dumped to /tmp/govc_dump.smt2")
 			}
